@@ -29,6 +29,12 @@ ASSUMPTIONS = ['settings.route_aware is False (default)',
                'zero-delay tasks run FIFO (task manager heap keyed by (time, counter))']
 
 GRID = [1, 2, 3, 4, 5, 6, 7, 9]
+import os as _os
+SCALE = float(_os.environ.get('VERIF_C06_SCALE', '1') or 1)     # dev knob for the mutation self-test; 1 = documented volumes
+
+
+def _n(k):
+    return max(1, int(k * SCALE))
 WATCHDOG = 4000
 
 
@@ -585,15 +591,15 @@ def rnd_world_script(rng, topo, nsend, limit):
 def cases(rng, tier):
     out = []
     big = tier == 'thorough'
-    for ports, app, ev in (grid_scripts() if big else grid_scripts()[::3]):
+    for ports, app, ev in (grid_scripts() if big else grid_scripts()[::3 if SCALE >= 1 else 12]):
         out.append(case_script('node-grid', ports, app, ev))
-    for _ in range(12000 if big else 2000):
+    for _ in range(_n(12000 if big else 2000)):
         ports, app, ev = rnd_script(rng)
         out.append(case_script('node-script', ports, app, ev))
-    for _ in range(1500 if big else 100):
+    for _ in range(_n(1500 if big else 100)):
         topo = rnd_tree(rng, 8 if rng.random() < 0.5 else 4)
         out.append(case_world('tree-script', topo, rnd_world_script(rng, topo, rng.randrange(1, 6), 3000)))
-    for _ in range(60 if big else 12):
+    for _ in range(_n(60 if big else 12)):
         topo = ring(rng, rng.choice([3, 4]), tail=rng.random() < 0.4)
         out.append(case_world('ring-script', topo, rnd_world_script(rng, topo, rng.randrange(1, 3), 250)))
     return out
@@ -686,7 +692,10 @@ def node_checks(ports, has_app, events):
                 node.send(e[1], e[2])
             else:
                 node.arrive(e[1], e[2], e[3], I.npdu_encode(e[4]))
-        except Exception:
+        except Exception as x:
+            if (e[0] == 'arrive' and e[4]['msg'] is None and e[4]['data'][:2] == b'\x10\x63'
+                    and all(n is not None and m is not None for n, m in ports)):
+                fails.append(dict(base, kind='exception-on-wellformed-frame', at=k, exc=repr(x)[:200]))
             continue
         if e[0] == 'arrive' and e[4]['dadr'] is not None and e[4]['dadr'][0] != 'g':
             # does the cache (as it stands when the frame is forwarded, i.e. after learning from its SADR) name a
@@ -760,9 +769,14 @@ def check_hop_exhaustion(rng, k, h):
     raw = Node(LocalStation(b'\xfa'), net.lans[1])
     apdu = b'\x10\x63' + bytes([rng.randrange(256), h])
     frame = I.npdu_encode({'dadr': ('g',), 'sadr': None, 'hop': h, 'msg': None, 'data': apdu})
-    raw.indication(PDU(frame, destination=LocalBroadcast()))
     base = {'chain': k, 'hop': h}
-    if I.drain_upto(WATCHDOG):
+    try:
+        raw.indication(PDU(frame, destination=LocalBroadcast()))
+        remaining = I.drain_upto(WATCHDOG)
+    except Exception as x:
+        I.reset_tasks()
+        return dict(base, kind='hop-exception', exc=repr(x)[:200])
+    if remaining:
         I.reset_tasks()
         return dict(base, kind='hop-no-termination')
     got = collections.Counter(l[1][1] for l in net.log if l[0] == 'up' and l[4] == apdu)
@@ -795,7 +809,7 @@ def direct(rng, tier, focus=()):
             failures.append(f)
 
     # --- trees: every (source, kind, destination), cold start, caches warming as traffic flows
-    for t in range(120 if big else 24):
+    for t in range(_n(120 if big else 24)):
         topo = rnd_tree(rng, 8 if t % 2 == 0 else 5)
         triples = [(src, kind, dest, rec) for src in topo.station_ids for (kind, dest, rec) in all_dests(topo, src)]
         rng.shuffle(triples)
@@ -835,7 +849,7 @@ def direct(rng, tier, focus=()):
             hist['hop-chain'] += 1
             nontriv.add(('hop', k, h))
     # --- cycles: termination (and bounded duplication) only
-    for t in range(30 if big else 8):
+    for t in range(_n(30 if big else 8)):
         topo = ring(rng, 3 + t % 2, tail=(t % 3 == 0))
         for variant in ('cold-discovery', 'cold-broadcasts', 'installed'):
             net = build(topo)
@@ -863,7 +877,7 @@ def direct(rng, tier, focus=()):
     for ports, app, ev in grid_scripts()[::3]:
         note_list += node_checks(ports, app, ev)
         n_eval += 1
-    for _ in range(20000 if big else 3000):
+    for _ in range(_n(20000 if big else 3000)):
         ports, app, ev = rnd_script(rng)
         note_list += node_checks(ports, app, ev)
         n_eval += 1
